@@ -415,6 +415,34 @@ thread_local! {
     static FACADE_WRITER: std::cell::Cell<bool> = const { std::cell::Cell::new(false) };
 }
 
+thread_local! {
+    /// C14 only: write SAM / SAM.gz / VCF / VCF.gz through the writers made by the format crates'
+    /// `io::writer::Builder::build_from_writer`
+    static BUILDER_WRITER: std::cell::Cell<bool> = const { std::cell::Cell::new(false) };
+    /// called by the builder protocols after their last call, before the writer is dropped
+    static BEFORE_DROP: std::cell::RefCell<Option<Box<dyn FnMut()>>> = const { std::cell::RefCell::new(None) };
+}
+
+pub fn set_builder_writer(on: bool) {
+    BUILDER_WRITER.with(|f| f.set(on));
+}
+
+pub fn builder_writer_kind(kind: Kind) -> bool {
+    matches!(kind, Kind::Sam | Kind::SamGz | Kind::Vcf | Kind::VcfGz)
+}
+
+pub fn set_before_drop(f: Option<Box<dyn FnMut()>>) {
+    BEFORE_DROP.with(|c| *c.borrow_mut() = f);
+}
+
+pub fn call_before_drop() {
+    BEFORE_DROP.with(|c| {
+        if let Some(f) = c.borrow_mut().as_mut() {
+            f();
+        }
+    });
+}
+
 pub fn set_facade_writer(on: bool) {
     FACADE_WRITER.with(|f| f.set(on));
 }
@@ -427,6 +455,8 @@ pub fn facade_writer_kind(kind: Kind) -> bool {
 pub fn writer_name(kind: Kind) -> String {
     if FACADE_WRITER.with(|f| f.get()) && facade_writer_kind(kind) {
         format!("{}:util-facade-writer", kind.name())
+    } else if BUILDER_WRITER.with(|f| f.get()) && builder_writer_kind(kind) {
+        format!("{}:builder-made-writer", kind.name())
     } else {
         format!("{}:writer", kind.name())
     }
@@ -440,6 +470,15 @@ pub fn write_to<W: Write>(kind: Kind, model: &Model, w: W) -> io::Result<()> {
             (Kind::SamGz, Model::Align { parsed, .. }) => return align::write_util_alignment(w, parsed, Format::Sam, true),
             (Kind::Bam, Model::Align { parsed, .. }) => return align::write_util_alignment(w, parsed, Format::Bam, true),
             (Kind::BamRaw, Model::Align { parsed, .. }) => return align::write_util_alignment(w, parsed, Format::Bam, false),
+            _ => {}
+        }
+    }
+    if BUILDER_WRITER.with(|f| f.get()) {
+        match (kind, model) {
+            (Kind::Sam, Model::Align { parsed, .. }) => return align::write_sam_builder(w, parsed, false),
+            (Kind::SamGz, Model::Align { parsed, .. }) => return align::write_sam_builder(w, parsed, true),
+            (Kind::Vcf, Model::Variant { parsed, .. }) => return variant::write_vcf_builder(w, parsed, false),
+            (Kind::VcfGz, Model::Variant { parsed, .. }) => return variant::write_vcf_builder(w, parsed, true),
             _ => {}
         }
     }
